@@ -32,4 +32,8 @@ TEXTS["C12"] = T("Ack.tla models done() and poll() at the grain of the individua
     "TLC then exports EVERY schedule of small instances (and a seeded sample of a larger one); each is replayed step by step on the real CommandAcknowledgement with schedule points between its accesses, and TLC validates every recorded step against Ack.tla and evaluates the same judges.",
     "TLA+ spec (Ack.tla) model-checked with TLC; all TLC-generated schedules replayed on the real acknowledgement; TLC trace validation",
     note="Trusted: TLC; additive points between the accesses; waker slot inferred (not observable). The effect-visible clause is covered by C11/C04/C07 judges on the system traces (status published after the command's last effect).")
+TEXTS["C14"] = T("Sketch.tla states the packed-counter functions twice (arithmetically, and as a transliteration of the Rust bit operations) and TLC proves them equal for all 256 bytes x both nibbles together with no-carry, saturation and halving (ASSUME ByteLemma), the sizing facts for counters 1..70, and on bounded access streams into a tiny sketch the invariants NoUnderCount, AgesExactly, WindowCount. "
+    "The binding is a per-transition tour: the real Row functions are called on every (byte, nibble), on random multi-byte rows and every counter size 1..70, and the real TinyLFU is driven with random access streams (positions and doorkeeper answers logged); TLC validates every recorded transition against Sketch.tla.",
+    "TLA+ spec (Sketch.tla) checked with TLC; per-transition tour and random streams of the real sketch validated by TLC against the spec",
+    note="Trusted: TLC, the guarded wrappers. Hash -> position mapping and bloom-filter answers are logged inputs, not derived.")
 NOT_APPLICABLE = {}
